@@ -170,6 +170,27 @@ def run_case(ck, desc):
     if len(small) != len(ref_small) or not np.array_equal(small["pseudopressure"].to_numpy(), ref_small["pseudopressure"].to_numpy()):
         ck.violation("builder-reads-the-gas-by-label", {"as": "pd.Series with fields in another order", "max_rel": float(np.max(np.abs(small["pseudopressure"].to_numpy()[1:] / ref_small["pseudopressure"].to_numpy()[1:] - 1))) if len(small) == len(ref_small) and len(small) > 1 else None}, desc)
     ck.count("tables_built_from_a_labelled_row")
+    # the same gas as a row of a wells table that carries MORE fields, named the way other parts of the
+    # library (or other tools) name things - surface temperature, a separator gas gravity, lower-case
+    # spellings: the builder reads the five documented keys and nothing else
+    decoys = {
+        "temperature": 60.0, "gas_specific_gravity": 0.9 if comp["Gas Specific Gravity"] < 0.8 else 0.6, "Temperature": 75.0, "T": 100.0, "sg": 1.1,
+        "api_gravity": 35.0, "solution_gor_initial": 650.0, "salinity": 3.0, "pressure": 5000.0, "maximum_pressure": 250.0,
+        "n2": 0.05, "h2s": 0.03, "co2": 0.07, "gas specific gravity": 1.0, "reservoir temperature (deg f)": 300.0,
+        "Gas Gravity": 0.95, "Reservoir Temperature": 310.0, "Reservoir Temperature (deg C)": 90.0, "dryness": "dry gas", "gas_dryness": "wet gas",
+        "N2 ": 0.06, "temperature_pseudocritical": -70.0, "pressure_pseudocritical": 650.0,
+    }
+    for form, gv in (("dict", dict(decoys, **comp)), ("dict, documented keys first", dict(comp, **decoys)), ("pd.Series", pd.Series(dict(decoys, **comp)))):
+        try:
+            with_decoys = fluids.build_pvt_gas(gv, dry, maximum_pressure=min(desc["pmax"], 400.0))
+        except Exception as e:  # noqa: BLE001
+            ck.violation("builder-reads-the-documented-keys-only", {"as": form, "raised": repr(e)[:200]}, desc)
+            continue
+        ck.count("tables_built_from_rows_with_further_fields")
+        for col in ("pseudopressure", "z-factor", "viscosity", "Density"):
+            if len(with_decoys) != len(ref_small) or not np.array_equal(with_decoys[col].to_numpy(), ref_small[col].to_numpy()):
+                ck.violation("builder-reads-the-documented-keys-only", {"as": form, "column": col, "max_rel": float(np.max(np.abs(with_decoys[col].to_numpy()[1:] / ref_small[col].to_numpy()[1:] - 1))) if len(with_decoys) == len(ref_small) else None}, desc)
+                break
     if desc.get("threads"):
         # one table per well in a thread pool: four gases at four temperatures built at the same
         # time, plus the quadrature route; every result equals the one obtained alone
